@@ -232,6 +232,9 @@ class MarkoModel:
             dotted = repo.dotted_name(it, se_f.module, se_f) if isinstance(it, (ast.Name, ast.Attribute)) else None
             if dotted == "marko.ext.gfm.GFM.elements":
                 src = "gfm"
+            elif isinstance(it, ast.Attribute) and it.attr == "elements" and isinstance(it.value, ast.Call) \
+                    and repo.dotted_name(it.value.func, se_f.module, se_f) == "marko.ext.footnote.make_extension":
+                src = "footnote"  # for e in footnote.make_extension().elements
             elif isinstance(it, ast.Attribute) and it.attr == "elements" and isinstance(it.value, ast.Name):
                 # footnote_ext = footnote.make_extension()
                 for n in walk_no_nested(se_f.node):
@@ -253,7 +256,23 @@ class MarkoModel:
                             r = repo.resolve_expr(st.value, se_f.module, se_f)
                             if isinstance(r, ClassInfo) and d:
                                 repl[d] = r
-            adds = [n for n in ast.walk(loop) if isinstance(n, ast.Call) and isinstance(n.func, ast.Attribute) and n.func.attr == "add_element"]
+            # ... or written as a conditional expression: Y if e is X else e
+            for n in ast.walk(loop):
+                if isinstance(n, ast.IfExp) and isinstance(n.test, ast.Compare) and len(n.test.ops) == 1 and isinstance(n.test.ops[0], ast.Is):
+                    d = repo.dotted_name(n.test.comparators[0], se_f.module, se_f)
+                    r = repo.resolve_expr(n.body, se_f.module, se_f) if isinstance(n.body, (ast.Name, ast.Attribute)) else None
+                    if isinstance(r, ClassInfo) and d:
+                        repl[d] = r
+
+            def registers(call: ast.Call) -> bool:
+                """parser.add_element(e), directly or through a helper of the package that does just that"""
+                if isinstance(call.func, ast.Attribute) and call.func.attr == "add_element":
+                    return True
+                r = repo.resolve_expr(call.func, se_f.module, se_f) if isinstance(call.func, (ast.Name, ast.Attribute)) else None
+                return isinstance(r, FuncInfo) and any(isinstance(x, ast.Call) and isinstance(x.func, ast.Attribute) and x.func.attr == "add_element"
+                                                       for x in ast.walk(r.node))
+
+            adds = [n for n in ast.walk(loop) if isinstance(n, ast.Call) and registers(n)]
             if not adds:
                 raise AnalysisError("extension loop without add_element")
             for elname in self._extension_elements(src):
